@@ -8,10 +8,14 @@ import (
 
 func vjsonScript(tag string) *bscript.Script {
 	switch vnondetLen(tag+"-kind", 0, 2+vparam("INSC", 1)) {
-	case 3: // a P2PKH inscription followed by one of four trailers
+	case 3: // a P2PKH inscription followed by one of six trailers
 		s := append(bscript.Script{}, *vp2pkhScript(tag + "-ipkh")...)
 		s = append(s, 0x00, 0x63, 0x03, 0x6f, 0x72, 0x64, 0x51, 0x01, 0x41, 0x00, 0x01, 0x42, 0x68)
-		switch vnondetLen(tag+"-trail", 0, 3) { // concrete trailers: a symbolic one forks per opcode class
+		switch vnondetLen(tag+"-trail", 0, 5) { // concrete trailers: a symbolic one forks per opcode class
+		case 4:
+			s = append(s, 0x4d, 0x01) // PUSHDATA2 cut inside its length field
+		case 5:
+			s = append(s, 0x4e, 0x01, 0x00, 0x00) // PUSHDATA4 cut inside its length field
 		case 1:
 			s = append(s, 0x4c, 0x00) // zero-length PUSHDATA1
 		case 2:
